@@ -159,6 +159,18 @@ def gen_cases(rng, tier):
         cases.append((parse_case(txt, exp), {'kind': 'spec-' + form, 'nontrivial': True}))
     cases.append((parse_case("D:199812231952-08'00'", (914471520, -28800)), {'kind': 'spec-minute', 'nontrivial': True}))
     cases.append((parse_case("D:20040229", (1078012800, 0)), {'kind': 'spec-date', 'nontrivial': True}))
+    # (e') no UT information = GMT whatever the machine zone: the date-only and the offset-less forms on every day of months
+    #      in which the zones the harness runs under (ZONES in harness/src/bin/c18.rs) switch to or from daylight saving
+    #      (one of them AT local midnight), around year ends and leap days
+    for (y, mo) in [(2004, 2), (2004, 10), (2018, 10), (2019, 2), (2024, 3), (2024, 11), (1999, 12), (2000, 1), (1900, 2)]:
+        for d in range(1, dim(y, mo) + 1):
+            cases.append((parse_case(spec_text(y, mo, d, 0, 0, 0, 0, 'date'), (instant(y, mo, d, 0, 0, 0, 0), 0)),
+                          {'kind': 'spec-date-month', 'nontrivial': True}))
+    for _ in range(150 if not thorough else 3000):
+        y, mo, d, h, mi, s = rand_civil(rng, rng.randint(2, 9998))
+        form = rng.choice(['date', 'date', 'fullz', 'minutez'])
+        exp = instant(y, mo, d, *((0, 0, 0) if form == 'date' else (h, mi, s) if form == 'fullz' else (h, mi, 0)), 0)
+        cases.append((parse_case(spec_text(y, mo, d, h, mi, s, 0, form), (exp, 0)), {'kind': 'spec-' + form, 'nontrivial': True}))
     # (f) malformed stream: hand-written boundary strings and mutations of well-formed ones
     for t in HAND:
         cases.append((parse_case(t), {'kind': 'malformed-hand', 'nontrivial': True}))
@@ -186,7 +198,13 @@ SPEC = {
             'years 1-9999 and one per year (quick: every 7th); each case formats with every source type (chrono Local via a '
             'per-case TZ, chrono Utc, jiff Zoned, jiff Timestamp, time OffsetDateTime) and reads every string back with every '
             'backend (all ordered pairs); the five textual forms of ISO 32000-1 7.9.4 (full, full Z, minute, minute Z, date only) '
-            'with the instant computed by the generator; sub-minute offsets (model tie only); 90 hand-written boundary strings and '
+            'with the instant computed by the generator, the date-only form on every day of nine months (daylight-saving switches of the '
+            'machine zones below, year ends, leap days); EVERY case is also run in five further processes whose machine time zone is '
+            'TZ=JST-9, EST5, NPT-5:45, EST5EDT,M3.2.0,M11.1.0 and <-03>3<-02>,M10.3.0/0,M2.3.0/0 (switch at local midnight): the '
+            'parsers must give textually the same result as under UTC (no offset written = GMT) and meet the generator\'s expectation '
+            'there, and the writers are exercised on the case\'s instant in the machine zone (chrono Local, jiff system zone, time at '
+            'that offset: specification form of the instant at the zone\'s offset, chrono and jiff pick the same offset, every parser '
+            'reads it back) -- counts per zone under machine_time_zones; sub-minute offsets (model tie only); 90 hand-written boundary strings and '
             'mutated strings over digits + - Z z D : \' and blanks; distinct = distinct case text',
     'extra_trusted': [
         'C18: per-directive behaviour of chrono 0.4.45 / jiff 0.2.37 / time 0.3.55 modelled by hand from their sources for the '
@@ -204,8 +222,44 @@ SPEC = {
 }
 
 
+ZONE_COLS = ['cases', 'parse_results_equal_to_utc', 'parse_expectations_met', 'writer_checks_ok', 'writer_outside_domain', 'failures']
+
+
 def run(ctx):
-    return propcheck.standard_check(ctx, SPEC)
+    """standard check; the harness also runs every case in one child process per machine time zone (TZ=JST-9, EST5, ...)
+    and appends its per-zone counters to the file named by LVH_C18_STATS: they are added up into the evidence"""
+    import json, os, tempfile, vlib
+    fd, stats = tempfile.mkstemp(prefix='c18_zones_', suffix='.tsv', dir=vlib.BUILD if os.path.isdir(vlib.BUILD) else None)
+    os.close(fd)
+    os.environ['LVH_C18_STATS'] = stats
+    try:
+        rc = propcheck.standard_check(ctx, SPEC)
+    finally:
+        os.environ.pop('LVH_C18_STATS', None)
+    zones = {}
+    try:
+        for line in open(stats):
+            f = line.rstrip('\n').split('\t')
+            if len(f) == 1 + len(ZONE_COLS):
+                z = zones.setdefault('TZ=' + f[0], dict.fromkeys(ZONE_COLS, 0))
+                for k, v in zip(ZONE_COLS, f[1:]):
+                    z[k] += int(v)
+        os.remove(stats)
+    except OSError:
+        pass
+    ep = os.path.join(vlib.ROOT, 'evidence', ctx.prop + '.json')
+    try:
+        ev = json.load(open(ep))
+        ev['coverage']['machine_time_zones'] = zones
+        ev['coverage']['machine_time_zone_runs'] = sum(z['cases'] for z in zones.values())
+        json.dump(ev, open(ep, 'w'), indent=1)
+    except (OSError, ValueError, KeyError):
+        pass
+    if rc == 0 and (len(zones) < 5 or any(z['cases'] == 0 for z in zones.values())):
+        # the zone runs are part of the check: if they did not happen the run proves less than it says
+        print('ERROR: C18 zone runs missing: %r' % zones)
+        return 1
+    return rc
 
 
 MANIFEST = {
@@ -219,7 +273,9 @@ MANIFEST = {
                   'only - is read by every back end as the value it denotes (C18_spec_forms) with the instant the specification '
                   'assigns to it (C18_same_instant); the pinned single-pattern time parser is refuted (C18_time_v0_refuted, fixed '
                   'by /repo 86e28c7). Tied to the real crates by differential runs: all 2879 offsets at a fixed instant, edge and '
-                  'sampled instants over years 1-9999, every ordered pair, the five textual forms, malformed strings.',
+                  'sampled instants over years 1-9999, every ordered pair, the five textual forms, malformed strings; every case also in five processes whose machine time '
+                  'zone is not UTC (POSIX TZ strings, two with daylight saving): same parse results as under UTC, writers checked on the '
+                  'zone\'s own offset.',
     'level_note': 'Partial in one respect: the per-directive behaviour of chrono 0.4.45 / jiff 0.2.37 / time 0.3.55 (printing and '
                   'scanning one directive, field resolution) and their instant <-> civil-field arithmetic are third-party code, '
                   'modelled by hand from their sources and tied by correspondence only (sampled, not verified). Domain restriction: '
